@@ -18,7 +18,11 @@ from ..core import Tally
 from ahrs.utils.wmm import WMM
 
 # one decimal date, one calendar-date OBJECT (the same object is handed to every call, as a caller holding a date would), one integer-ish decimal
-DATES = {"d2017": 2017.3, "d2022": datetime.date(2022, 10, 19), "d2027": 2027.1}
+DATE_SETS = [{"d2017": 2017.3, "d2022": datetime.date(2022, 10, 19), "d2027": 2027.1},
+             # decimal dates that are not day-aligned and sit next to a rounding boundary of the 0.1-year secular-variation step
+             {"d2017": 2018.35, "d2022": 2021.65, "d2027": 2026.55},
+             {"d2017": 2016.05, "d2022": 2023.45, "d2027": datetime.date(2029, 12, 31)}]
+DATES = dict(DATE_SETS[0])
 PLACES = {"munich": (48.1372, 11.5755, 0.519), "lat0": (0.0, 11.5, 0.0), "lon0": (48.0, 0.0, 0.5), "northpole": (90.0, 0.0, 0.0),
           "southpole": (-90.0, 45.0, 1.0), "lon180": (-30.0, 180.0, 10.0)}
 KEYS = ["X", "Y", "Z", "H", "F", "I", "D", "GV"]
@@ -156,7 +160,7 @@ def static_checks():
 
 def run(chk):
     quick = chk.tier == "quick"
-    chk.rule = ("histories of Construct / Query / Read over 3 dates (one per coefficient file) u None, 6 places (lat 0, lon 0, both poles, "
+    chk.rule = ("histories of Construct / Query / Read over 3 dates (one per coefficient file; 3 concrete triples incl. a shared calendar-date object and decimal dates next to 0.05-year rounding boundaries) u None, 6 places (lat 0, lon 0, both poles, "
                 "lon 180, Munich) and 2 frames: exhaustive in TLC for <= 4 operations, -simulate histories of <= 10 operations replayed on real "
                 "objects; distinct = distinct history; histories of one call are the trivial ones (counted separately in notes)")
     chk.assume("bit-equality of the eight elements between any two histories that ask for the same (date, place, frame) and a fresh object")
@@ -168,8 +172,16 @@ def run(chk):
     res = tlc.run_tlc("MC_WmmSession", core.spec_cfg("MC_WmmSession").replace("MaxOps = 4", "MaxOps = 10"), simulate=nb, depth=11,
                       seed=chk.seed % 100000, workers=1, want_behaviours=True, timeout=900)
     chk.add_tlc("WmmSession[-simulate %d x depth 10]" % nb, res)
-    t, traces = replay_behaviours(res.behaviours)
-    core.merge(chk, [t, static_checks()])
+    traces = []
+    for si, ds in enumerate(DATE_SETS if not quick else DATE_SETS[:2]):
+        DATES.clear()
+        DATES.update(ds)
+        _ref.clear()
+        t, trs = replay_behaviours(res.behaviours if si == 0 or not quick else res.behaviours[::2])
+        traces += trs
+        core.merge(chk, [t, static_checks()])
+    DATES.clear()
+    DATES.update(DATE_SETS[0])
     chk.notes["single_call_histories"] = sum(1 for k in chk.distinct if isinstance(k, tuple) and len(k) == 1)
     core.validate_traces(chk, "TraceWmmSession", core.spec_cfg("TraceWmmSession"), traces, "wmm",
                          lambda tr, i: "C15|trace-rejected|%s" % tr["events"][min(i, len(tr["events"])) - 1]["act"])
